@@ -72,8 +72,34 @@ fn from_str_fn(s: &str) -> Option<D> {
     SORTED.iter().find(|x| x.1 == s).map(|x| x.0)
 }
 
+fn lossy(s: &str, bits: u32) -> u32 {
+    let mut h = 0x811c_9dc5u32;
+    for b in s.bytes() {
+        h = (h ^ b as u32).wrapping_mul(0x0100_0193);
+    }
+    h & ((1 << bits) - 1)
+}
+
 fn from_str_trait(s: &str) -> Option<D> {
-    SORTED.iter().find(|x| x.1 == s).map(|x| x.0)
+    match fault() {
+        // a digest which ignores the order of the bytes ("*B" is accepted for "B*")
+        50 => {
+            let key = |t: &str| {
+                let mut v: Vec<u8> = t.bytes().collect();
+                v.sort();
+                v
+            };
+            SORTED.iter().find(|x| key(x.1) == key(s)).map(|x| x.0)
+        }
+        // a comparison of the length and of the first byte only
+        51 => SORTED
+            .iter()
+            .find(|x| x.1.len() == s.len() && x.1.bytes().next() == s.bytes().next())
+            .map(|x| x.0),
+        // a 12 bit digest without a final comparison: only the volume stage can see it
+        52 => SORTED.iter().find(|x| lossy(x.1, 12) == lossy(s, 12)).map(|x| x.0),
+        _ => SORTED.iter().find(|x| x.1 == s).map(|x| x.0),
+    }
 }
 
 fn min() -> D {
@@ -293,7 +319,7 @@ fn oracles_fire_on_their_own_fault_and_only_then() {
         assert_eq!((v, n), (0, 0), "{p} raised an alarm on the correct subject: {w:?}");
     }
     // fault -> the property which must fire (all others must stay silent)
-    let table: [(u32, &str); 26] = [
+    let table: [(u32, &str); 29] = [
         (1, "C01"),
         (2, "C01"),
         (3, "C01"),
@@ -303,6 +329,9 @@ fn oracles_fire_on_their_own_fault_and_only_then() {
         (7, "C04"),
         (8, "C04"),
         (9, "C04"),
+        (50, "C04"),
+        (51, "C04"),
+        (52, "C04"),
         (10, "C05"),
         (11, "C05"),
         (12, "C05"),
